@@ -183,6 +183,8 @@ def parseForm (s : String) : Option Form :=
   | "chainBoth" => some .chainBoth | "apply" => some .apply | "of" => some .of_ | "juxt" => some .juxt
   | "rsec" => some .rsec | "opassign" => some .opAssign | "splatAll" => some .splatAll
   | "splatTail" => some .splatTail | "dot" => some .dot | "fwdDot" => some .fwdDot
+  | "opself" => some .opSelf | "opselfg" => some (.opSelfApp 50) | "opseq" => some .opSeq
+  | "opthrow" => some .opRhsFails
   | _ => if s.startsWith "sec" then (s.drop 3).toString.toNat?.map Form.secHole else none
 
 def renderRef : ApplySpec.Ref → String
@@ -190,6 +192,9 @@ def renderRef : ApplySpec.Ref → String
   | .ifSection => "ref:ifSection"
   | .ifNotFunc => "ref:ifNotFunc"
   | .listLit => "ref:listLit"
+  | .selfPair => "ref:selfPair"
+  | .selfApp => "ref:selfApp"
+  | .argA => "ref:argA"
 
 def hexOfString (s : String) : String := hexOfBytes (s.toUTF8.toList.map (·.toNat))
 
